@@ -331,3 +331,77 @@ def init_orders(i0: int, fa: int, fi: int) -> bool:
                 break
     tock("init_orders")
     return ok
+
+
+# ------------------------------------------------------------------------------------ (S) further cross-file scenarios
+_IMPL = "module impl\ncontains\nsubroutine do_it(x, self)\nreal :: x\nclass(*) :: self\nend subroutine\nend module impl\n"
+_TYPES = ("module types\nuse impl\ntype t\ncontains\nprocedure, pass(self) :: do_it\nend type t\ncontains\nsubroutine user()\ntype(t) :: v\n"
+          "call v%do_it(1.0)\nend subroutine\nend module types\n")
+_INCU = "module incu\nimplicit none\ncontains\nsubroutine sub(a, b)\ninclude 'args.f90'\nb = a\nend subroutine sub\nend module incu\n"
+_OMP = "module omp_lib\ninteger :: mine\nend module omp_lib\n"
+_OMPU = "subroutine ompu()\nuse omp_lib\nprint *, omp_get_num_threads()\nend subroutine ompu\n"
+_PPA = '#include "defs.h"\nmodule ppa\n#ifdef USE_X\ninteger :: x\n#endif\nend module ppa\n'
+# (initial files, [(event, file, new text or None)], probes [(file, line, col)])
+SCEN = [
+    ({"impl.f90": _IMPL, "types.f90": _TYPES}, [("save", "impl.f90", _IMPL.replace("(x, self)", "(x, me)").replace(":: self", ":: me"))],
+     [("types.f90", 9, 9), ("types.f90", 9, 14), ("types.f90", 4, 25)]),
+    ({"incu.f90": _INCU, "args.f90": "real :: a\nreal :: b\n"}, [("save", "args.f90", "! nothing\n")], [("incu.f90", 3, 15), ("incu.f90", 5, 0)]),
+    ({"incu.f90": _INCU, "args.f90": "real :: a\nreal :: b\n"}, [("delete", "args.f90", None)], [("incu.f90", 3, 15), ("incu.f90", 5, 0)]),
+    ({"incu.f90": _INCU, "args.f90": "real :: a\nreal :: b\n"}, [("save", "args.f90", "integer :: a\n"), ("delete", "args.f90", None)], [("incu.f90", 3, 15), ("incu.f90", 5, 4)]),
+    ({"m.f90": _OMP, "u.f90": _OMPU}, [("save", "m.f90", "module other\ninteger :: mine\nend module other\n")], [("u.f90", 1, 6), ("u.f90", 2, 12)]),
+    ({"m.f90": _OMP, "u.f90": _OMPU}, [("delete", "m.f90", None)], [("u.f90", 1, 6), ("u.f90", 2, 12)]),
+    ({"sub1/b.F90": "module bm\ninteger :: y\nend module bm\n", "sub2/a.F90": _PPA, "sub1/defs.h": "#define USE_X\n"},
+     [("save", "sub1/b.F90", "module bm\ninteger :: y\nend module bm\n\n"), ("save", "sub2/a.F90", _PPA + "\n")], [("sub2/a.F90", 3, 11)]),
+]
+
+
+def _scen_dump(srv, names, probes):
+    out = {}
+    for (p, ln, c) in probes:
+        for m in ("textDocument/hover", "textDocument/definition", "textDocument/signatureHelp", "textDocument/completion"):
+            r = ws.request(srv, m, f"{R}/{p}", ln, c)
+            out[(p, ln, c, m)] = str(r if m != "textDocument/completion" else (r[0], sorted(i["label"] for i in (r[1] or [])) if r[0] == "resp" else r))
+    for p in names:
+        if f"{R}/{p}" in srv.workspace:
+            out[("diag", p)] = str(sorted((d["message"], d["range"]["start"]["line"]) for d in ws.diagnostics(srv, f"{R}/{p}")))
+            out[("sym", p)] = str(ws.request(srv, "textDocument/documentSymbol", f"{R}/{p}", 0, 0))
+    return out
+
+
+def scenarios(k: int, reopen: bool) -> bool:
+    """further cross-file scenarios on small workspaces (a PASS(name) binding whose target changes its argument
+    names; an include file of dummy-argument declarations emptied / deleted / changed then deleted; a user module
+    named like an intrinsic module renamed / deleted; preprocessed files in two directories saved one after the
+    other): after the events (each file saved or deleted, optionally re-opened first) the answers at the probes,
+    diagnostics and outlines equal those of a fresh server (real workspace_init) on the final files
+    pre: 0 <= k < len(SCEN)
+    post: _
+    """
+    tick("scenarios")
+    k = conc(k, 0, len(SCEN) - 1)
+    reopen = bool(reopen)
+    ok = True
+    with NoTracing():
+        files0, events, probes = SCEN[k]
+        f0 = {f"{R}/{n}": t for n, t in files0.items()}
+        srv = ws.fresh_init(SRV, f0)
+        for ev, name, text in events:
+            p = f"{R}/{name}"
+            if reopen:
+                notify(srv, "textDocument/didOpen", p)
+            if ev == "save":
+                ws.FILES[p] = text
+                notify(srv, "textDocument/didSave", p)
+            else:
+                del ws.FILES[p]
+                notify(srv, "textDocument/didClose", p)
+        final = dict(ws.FILES)
+        got = _scen_dump(srv, list(files0), probes)
+        fresh = ws.fresh_init(SRV2, final)
+        want = _scen_dump(fresh, list(files0), probes)
+        if got != want:
+            diff = {kk: (got.get(kk, "")[:200], want.get(kk, "")[:200]) for kk in set(got) | set(want) if got.get(kk) != want.get(kk)}
+            FAIL.append(f"scenario {k} (reopen={reopen}): long-lived vs fresh differ in {diff}")
+            ok = False
+    tock("scenarios")
+    return ok
